@@ -313,14 +313,36 @@ Proof.
   eapply fr_nn; [apply fr_check_retx, IX|]. eapply fr_nn; [exact H1|apply fr_reap_closed].
 Qed.
 
-Lemma fr_k_udp_send_to k fd pl dst : fr [] k (fst (k_udp_send_to k fd pl dst)).
+Lemma fr_udp_send_core k fd s pl dst : fr [] k (fst (udp_send_core k fd s pl dst)).
 Proof.
-  unfold k_udp_send_to. destruct (lookup k fd) as [s|]; [|apply fr_refl].
-  destruct (negb _); [apply fr_refl|]. destruct (_ <? _); [apply fr_refl|].
+  unfold udp_send_core. destruct (_ <? _); [apply fr_refl|].
   assert (fr [] k (fst (match s_bound s with Some b => (k, Ready b) | None => auto_bind k fd false (fst dst) end))) as H1.
   { destruct (s_bound s); [apply fr_refl|apply fr_auto_bind]. }
   destruct (match s_bound s with Some b => (k, Ready b) | None => auto_bind k fd false (fst dst) end) as [k1 [|b|e]];
     cbn [fst] in *; exact H1.
+Qed.
+
+Lemma fr_k_udp_send_to k fd pl dst : fr [] k (fst (k_udp_send_to k fd pl dst)).
+Proof.
+  unfold k_udp_send_to. destruct (lookup k fd) as [s|]; [|apply fr_refl].
+  destruct (negb _); [apply fr_refl|apply fr_udp_send_core].
+Qed.
+
+Lemma fr_k_udp_send k fd pl : fr [] k (fst (k_udp_send k fd pl)).
+Proof.
+  unfold k_udp_send. destruct (lookup k fd) as [s|]; [|apply fr_refl].
+  destruct (s_peer s); [apply fr_udp_send_core|apply fr_refl].
+Qed.
+
+Lemma fr_k_udp_connect k fd peer : fr [] k (fst (k_udp_connect k fd peer)).
+Proof.
+  unfold k_udp_connect. destruct (lookup k fd) as [s|]; [|apply fr_refl].
+  destruct (negb _); [apply fr_refl|].
+  assert (fr [] k (fst (match s_bound s with Some b => (k, Ready b) | None => auto_bind k fd false (fst peer) end))) as H1.
+  { destruct (s_bound s); [apply fr_refl|apply fr_auto_bind]. }
+  destruct (match s_bound s with Some b => (k, Ready b) | None => auto_bind k fd false (fst peer) end) as [k1 [|b|e]];
+    cbn [fst] in *; try exact H1.
+  eapply fr_nn; [exact H1|]. apply fr_upd. intros s0. reflexivity.
 Qed.
 
 (* ------------------------------------------------------------------ *)
@@ -419,6 +441,8 @@ Proof.
     + intros s Hs. destruct (SF s Hs) as (T & _). unfold is_synrcvd. rewrite T. reflexivity.
     + rewrite RD. intros X. destruct (ac_old _ _ H _ X) as [Lt _]. lia.
   - destruct (_ && _); [|exact H]. apply AccInv_k_udp_send_to, H.
+  - destruct (_ && _); [|exact H]. apply AccInv_k_udp_connect, H.
+  - destruct (_ && _); [|exact H]. apply AccInv_k_udp_send, H.
   - apply AccInv_k_deliver, H.
   - apply AccInv_k_egress, H.
 Qed.
@@ -1052,6 +1076,32 @@ Proof.
         unfold is_dgram. rewrite L, A, (has_tcb_b_of _ _ _ L), B. reflexivity.
       - unfold is_dgram. rewrite L. cbn [andb]. unfold k_udp_send_to. rewrite L. cbn [fst]. rewrite <- Ek. apply okern_eta. }
     destruct (k_udp_send_to k fd pl dst) as [k1 [|u|er]]; exact R.
+  - (* EUdpConnect *)
+    nolog logs. destruct (slot_get (slots w) slot) as [[h fd peer|h fd|h fd|h fd]|] eqn:SG; try exact W.
+    destruct (get_host w h) as [k|] eqn:G; [|exact W].
+    pose proof (wi_typed _ _ _ _ W slot _ (slot_get_in _ _ _ SG)) as T. cbn [typed] in T.
+    set (dst := (mkip (w6 w) a, port)).
+    assert (WI c v (set_host w h (fst (k_udp_connect k fd dst))) logs) as R.
+    { apply (WI_konly c v w logs h k _ (OUdpConnect fd dst)); try assumption; [apply fr_k_udp_connect|].
+      intros o _ Ek OW. cbn [ostep]. rewrite (OW fd (sfds_in _ _ _ _ (slot_get_in _ _ _ SG) eq_refl)), Ek.
+      destruct (lookup k fd) as [so|] eqn:L.
+      - destruct (lookup_some_in _ _ _ L) as [Hso _]. destruct (T k so G Hso) as [A B].
+        unfold is_dgram. rewrite L, A, (has_tcb_b_of _ _ _ L), B. reflexivity.
+      - unfold is_dgram. rewrite L. cbn [andb]. unfold k_udp_connect. rewrite L. cbn [fst]. rewrite <- Ek. apply okern_eta. }
+    destruct (k_udp_connect k fd dst) as [k1 [|u|er]]; exact R.
+  - (* EUdpSendC *)
+    nolog logs. destruct (slot_get (slots w) slot) as [[h fd peer|h fd|h fd|h fd]|] eqn:SG; try exact W.
+    destruct (get_host w h) as [k|] eqn:G; [|exact W].
+    pose proof (wi_typed _ _ _ _ W slot _ (slot_get_in _ _ _ SG)) as T. cbn [typed] in T.
+    set (pl := repeat 7 (N.to_nat n)).
+    assert (WI c v (set_host w h (fst (k_udp_send k fd pl))) logs) as R.
+    { apply (WI_konly c v w logs h k _ (OUdpSendC fd pl)); try assumption; [apply fr_k_udp_send|].
+      intros o _ Ek OW. cbn [ostep]. rewrite (OW fd (sfds_in _ _ _ _ (slot_get_in _ _ _ SG) eq_refl)), Ek.
+      destruct (lookup k fd) as [so|] eqn:L.
+      - destruct (lookup_some_in _ _ _ L) as [Hso _]. destruct (T k so G Hso) as [A B].
+        unfold is_dgram. rewrite L, A, (has_tcb_b_of _ _ _ L), B. reflexivity.
+      - unfold is_dgram. rewrite L. cbn [andb]. unfold k_udp_send. rewrite L. cbn [fst]. rewrite <- Ek. apply okern_eta. }
+    destruct (k_udp_send k fd pl) as [k1 [|u|er]]; exact R.
 Qed.
 
 (* ------------------------------------------------------------------ *)
